@@ -18,7 +18,7 @@ GenView == vars
 
 Design == [UnlockAt |-> UnlockAt, RefRelease |-> RefRelease, SeqAtomic |-> SeqAtomic,
            DryRunAllocates |-> DryRunAllocates, DryRunPublishes |-> DryRunPublishes,
-           RevertEventSwapped |-> RevertEventSwapped, ReplayFromRequest |-> ReplayFromRequest, MetaSourceLocked |-> MetaSourceLocked,
+           RevertEventSwapped |-> RevertEventSwapped, ReplayFromRequest |-> ReplayFromRequest, SeedTx |-> SeedTx, LookupErrorIgnored |-> LookupErrorIgnored, MetaSourceLocked |-> MetaSourceLocked,
            AckWaitsPersist |-> AckWaitsPersist, IkSpan |-> IkSpan, RevertGuard |-> RevertGuard,
            MetaLogsCarryIk |-> MetaLogsCarryIk, CancelAbortsWait |-> CancelAbortsWait]
 
@@ -34,6 +34,8 @@ GStep ==
         /\ hist' = Append(hist, [a |-> "step", p |-> p, at |-> pc'[p], rs |-> resp'[p].st,
                                   code |-> resp'[p].code, txid |-> resp'[p].txid] @@ Obs)
 
+GReadFail == \E p \in Procs : ReadFail(p) /\ hist' = Append(hist, [a |-> "readfail", p |-> p, at |-> pc'[p], rs |-> resp'[p].st,
+                                                                   code |-> resp'[p].code, txid |-> resp'[p].txid] @@ Obs)
 GCancel == \E p \in Procs : Cancel(p) /\ hist' = Append(hist, [a |-> "cancel", p |-> p] @@ Obs)
 GPersist == Persist /\ hist' = Append(hist, [a |-> "persist"] @@ Obs)
 GCrash(applied) == Crash(applied) /\ hist' = Append(hist, [a |-> "crash", applied |-> applied] @@ Obs)
@@ -48,7 +50,7 @@ Emit ==
 
 GenNext ==
     \/ /\ ~emitted /\ Len(hist) < MaxLen /\ UNCHANGED emitted
-       /\ (GStep \/ GCancel \/ GPersist \/ GCrash(TRUE) \/ GCrash(FALSE))
+       /\ (GStep \/ GReadFail \/ GCancel \/ GPersist \/ GCrash(TRUE) \/ GCrash(FALSE))
     \/ Emit
 
 GenSpec == GenInit /\ [][GenNext]_gvars
@@ -64,11 +66,11 @@ SeqStep ==
                                   code |-> resp'[p].code, txid |-> resp'[p].txid] @@ Obs)
 SeqNext ==
     \/ /\ ~emitted /\ Len(hist) < MaxLen /\ UNCHANGED emitted
-       /\ (SeqStep \/ GPersist \/ GCrash(TRUE) \/ GCrash(FALSE))
+       /\ (SeqStep \/ GReadFail \/ GPersist \/ GCrash(TRUE) \/ GCrash(FALSE))
     \/ Emit
 SeqSpec == GenInit /\ [][SeqNext]_gvars
 
 \* model checking with the history carried along (negative designs): no Emit
-AttackNext == UNCHANGED emitted /\ (GStep \/ GCancel \/ GPersist \/ GCrash(TRUE) \/ GCrash(FALSE))
+AttackNext == UNCHANGED emitted /\ (GStep \/ GReadFail \/ GCancel \/ GPersist \/ GCrash(TRUE) \/ GCrash(FALSE))
 AttackSpec == GenInit /\ [][AttackNext]_gvars
 =============================================================================
